@@ -77,13 +77,16 @@ Theorem above_deserved_in_every_dimension_refuted :
 Proof. exact CapLemmas.above_deserved_in_every_dimension_refuted. Qed.
 Print Assumptions above_deserved_in_every_dimension_refuted.
 
-(* drf (preempt only): a returned victim passed the share test - the preemptor job's dominant share with the preemptor
-   is below, or within shareDelta of, the dominant share of what is LEFT of the victim's job after every candidate
-   of that job looked at so far, the victim included (the vote is cumulative over a job's candidates) *)
-Theorem drf_vote_cumulative : forall eps s ls l al c left, (c, left) ∈ drf_go_tr eps s ls al l ->
-  c ∈ l /\ drf_lets_go ls (dom_share eps left (total_res s)) = true.
-Proof. exact drf_go_tr_spec. Qed.
-Print Assumptions drf_vote_cumulative.
+(* drf (preempt only): what a victim returned by the drf vote means.  The candidate list splits at the victim, and the
+   preemptor job's dominant share with the preemptor is below, or within shareDelta of, the dominant share of what the
+   victim's job holds (handler ledger) minus the requests of ALL candidates of that job up to and including the victim,
+   returned or not (drf_left).  Monotonicity of dom_share, hence the statement on an arbitrary subset, is not proved. *)
+Theorem drf_vote_victim_meaning : forall (eps : Z) (s : sess) (p : task) (l : list task) (c : task),
+  c ∈ drf_vote eps s p l ->
+  exists pre post, l = pre ++ c :: post /\
+    drf_lets_go (drf_ls eps s p) (dom_share eps (drf_left s (pre ++ [c]) (t_job c)) (total_res s)) = true.
+Proof. exact VoteLemmas.drf_vote_victim_meaning. Qed.
+Print Assumptions drf_vote_victim_meaning.
 
 Theorem victims_subset_candidates : forall (eps : Z) (E : env) (k : akind) (s : sess) (p : task) (l : list task) (c : task),
   c ∈ victims eps E k s p l -> c ∈ l.
